@@ -651,7 +651,7 @@ def prove(goal, side=None, timeout_ms=20000, name="ob", outdir=None, second_opin
     if r == z3.unsat:
         res = Result("discharged", dt, smt2=path)
         if second_opinion and path:
-            st2, dt2 = run_cvc5(path, timeout_ms / 1000.0)
+            st2, dt2 = run_cvc5(path, min(5.0, timeout_ms / 1000.0))     # second opinion is time-boxed
             res.backend = "z3+cvc5" if st2 == "unsat" else "z3 (cvc5: %s)" % st2
             res.seconds += dt2
         return res
